@@ -371,7 +371,10 @@ StateChecks(op, obs, fateq) ==
     : v \in DOMAIN disk}
   \cup (IF ObsOK(obs) THEN {} ELSE {<<"C01", "Observers", "length/offset/eof differ from the model:" \o op>>})
 
-DesyncTags == {"Refines", "Result", "Observers", "PendingData", "Handle", "Panic", "ReadData"}
+\* after these the model no longer knows the state of the real object and the rest of the history is skipped
+\* (data / cursor discrepancies are not among them: the model's own state advanced as specified, and what the
+\*  medium holds is compared again at the next return - so that e.g. a flush of misplaced data is still judged)
+DesyncTags == {"Result", "Handle", "Panic"}
 
 \* the generic shape of a Return: admissibility, post-state, then the state checks
 \* refs: refusal set; okPost: action for success; extra: additional tags (computed from primed state)
